@@ -24,6 +24,7 @@ func main() {
 	// every enumeration builds its tables on first use (a worker process serves one enumeration)
 	explore.RegisterEnum("c07-bool", boolTotalOf("main"), boolEvalOf("main"))
 	explore.RegisterEnum("c07-bool-deep", boolTotalOf("deep"), boolEvalOf("deep"))
+	explore.RegisterEnum("c07-bool-wide", boolTotalOf("wide"), boolEvalOf("wide"))
 	explore.RegisterEnum("c07-termdict", func(p string) int64 { ensureTD(); return tdTotal(p) },
 		func(i int64, p string) *explore.Result { ensureTD(); return tdEval(i, p) })
 	explore.RegisterEnum("c07-phrase", func(p string) int64 { ensurePhrase(); return phraseTotal(p) },
@@ -78,11 +79,12 @@ func main() {
 	}
 	c.Rule = fmt.Sprintf("c07-bool: every assignment of the terms x,y,z to 5 live documents (2^15 corpora, reduced to %d representatives under permutation of the terms; leaves range over all three terms) laid out as 2 segments of 3+2 live documents with one pending deletion in each, x %s (depth1 = every node with term clauses, <=1 per must/should/must-not group in the quick tier and stage a, <=2 per group in stages b (<=4 leaves) and c (5-6 leaves), minShould 0..2; depth2 = every node with <=1 clause per group whose clauses are terms or one-clause boolean nodes, <=2 leaves, minShould 0..2 at both levels; heap = 11-12 should clauses cycling over 1-3 terms with optional must / must-not term and minShould up to 12) x 3 modes (AllMatches, TopN scored, TopN Score=none). "+
 		"c07-bool-deep: every assignment to 3 live documents (%d representatives, 2+1 live documents in 2 segments, one pending deletion each) x %d depth-2 queries (thorough: <=1 clause per outer group, inner nodes with <=2 term clauses per group and <=2 leaves, <=3 leaves in total; quick: as depth2 above) x 3 modes. "+
-		"c07-termdict: 2 corpora (17-string vocabulary {a,b}^1..3 + \"\", \\xff, a\\xff over 2 segments with pending deletions; every second string in 1 segment) x %d queries: every term, every non-empty prefix, every wildcard over {a,b,?,*}^0..3, %d regexps, fuzzy for every (term, fuzziness 0-2, prefix 0-2), term range for every (min, max, inclusive, inclusive) incl. unbounded, inverted and degenerate. "+
+		"c07-bool-wide: every assignment to 4 live documents (%d representatives) in 4 unmerged segments of one live document each (pending deletions in segments 1 and 3) x %d depth-1/heap queries x 3 modes. c07-termdict: 4 corpora (17-string vocabulary {a,b}^1..3 + \"\", \\xff, a\\xff: over 2 segments with pending deletions; every second string in 1 segment; every string in each of 3 unmerged segments; every string in 3 or 4 of 4 unmerged segments - with a pending deletion of a recurring term and of a deleted-only term in every segment) x %d queries: every term, every non-empty prefix, every wildcard over {a,b,?,*}^0..3, %d regexps, fuzzy for every (term, fuzziness 0-2, prefix 0-2), term range for every (min, max, inclusive, inclusive) incl. unbounded, inverted and degenerate. "+
 		"c07-phrase: %d multi-phrase / match-phrase / match queries (1-3 slots of 1-2 terms over {a,b,c}, slop 0-2) over every token sequence of length <=4 held in one value and split over two values of a field (%d live documents, 2 segments, 4 pending deletions). c07-mixed: %d boolean combinations (must+must, must+must-not, should~2, should~0, must+should~1) of every ordered pair of %d leaves of every query kind. "+
 		"c07-numeric / c07-date: every (min, max, inclusive, inclusive) over values on both sides of nibble/byte/word/exponent boundaries of the sortable encoding (both signs; dates: int64 extremes and the two instants whose float image is infinite) incl. unbounded ends. c07-geo: every box (top-left, bottom-right) over a corner grid incl. date-line-crossing and inverted ones, boxes at the scale of the search cells, circles around grid points x radii from 1 m to more than half the circumference, over a 7x7 world grid (poles, +-180) plus a 5x5 cluster finer than the search cells. "+
 		"Every case is a distinct (corpus, query) input; it counts as non-trivial when the expected result is a non-empty proper subset of the live documents.",
 		len(boolFamilies["main"].canon), stages, len(boolFamilies["deep"].canon), len(spd.queries),
+		len(boolFamilies["wide"].canon), len(boolQueries("wide", tierName).queries),
 		len(tdQueries), len(regexpGrammar), len(phraseQueries), pLive, len(mixQueries), len(mixLeaves))
 	c.Explanation = "bounded-exhaustive enumeration (no sampling) of corpora x queries; every index is built by the real writer (one batch per segment, a final batch of deletions producing pending deletions, no merges) and searched through bluge.Reader.Search with AllMatches and TopN(size > #documents); the oracle evaluates the documented meaning of the query directly on the analysed documents the check generated (term sets, token positions, decoded numbers, points) and never calls a bluge searcher; judged: the set of returned _id values equals the expected set, no id twice, no deleted document"
 	c.Assumptions = []string{
@@ -128,12 +130,13 @@ func main() {
 	q := func(quick, thorough int) time.Duration {
 		return c.PickD(time.Duration(quick)*time.Second, time.Duration(thorough)*time.Second)
 	}
-	run("c07-termdict", tier, q(5, 20), 8)
+	run("c07-termdict", tier, q(12, 40), 8)
 	run("c07-phrase", tier, q(8, 30), 8)
 	run("c07-mixed", tier, q(8, 40), 8)
 	run("c07-numeric", tier, q(6, 40), 8)
 	run("c07-date", tier, q(5, 30), 8)
 	run("c07-geo", tier, q(8, 50), 2)
+	run("c07-bool-wide", tier, q(5, 40), 2)
 	run("c07-bool-deep", tier, q(7, 80), 2)
 	if c.Thorough() {
 		// stage a always completes; b and c are long and may be cut by their budgets (exhaustive:false)
